@@ -100,8 +100,7 @@ CLAIMS = {
         "functions can destroy, bit-copy, move out, disarm or contains unsafe code (all others are safe code over T); in "
         "those, every move-out is paired with the size decrease and every size increase with the slot write, slots are "
         "written only when already counted, every public entry returns balanced; the owners (buffer Drop, IntoIter, "
-        "Drain::drop, From<[T;M]>) destroy what they hold. Also: drop_range returns without destroying only for an empty range (DESTROY1), the drain's un-yielded views are bounded by iter, never by range (DRNVIEW1), no iterator type overrides a provided method that moves or skips elements (ITERSET1), what Drain::next/next_back hand out is read(i) for exactly the index the range iterator just produced (DRAINIT1), and the two pieces handed to the destructors (Drain views, drop_range) are one contiguous piece only where the guard facts entail lower < upper strictly and a split only where they entail upper <= lower (VIEWCMP1). Not decided: that the slot ranges passed to drop_range/"
-        "drop_in_place/ptr::copy are the right ones (values).",
+        "Drain::drop, From<[T;M]>) destroy what they hold. Also: drop_range returns without destroying only for an empty range (DESTROY1), the drain's un-yielded views are bounded by iter, never by range (DRNVIEW1), no iterator type overrides a provided method that moves or skips elements (ITERSET1), what Drain::next/next_back hand out is read(i) for exactly the index the range iterator just produced (DRAINIT1), and the two pieces handed to the destructors (Drain views, drop_range) are one contiguous piece only where the guard facts entail lower < upper strictly and a split only where they entail upper <= lower (VIEWCMP1). The geometry of the drain's back-fill is decided as equalities of linear forms over the Drain's fields (BACKFILL2): destination starts at start + range.start, source at start + range.end, source + count = buf_size, restored size = destination + count, and each iteration advances both cursors and reduces the counter by exactly the copied count; and the typestate 'size is 0 while a Drain exists' (DRN1 a-c,f). Not decided: the slot ranges passed to ptr::copy in remove and From<[T;M]> (values).",
         note="Tables in rules/tables.py are reviewed by hand against the source; trusted: Rust's guarantees for safe "
         "code, rustc MIR. Range arithmetic not decided.",
         ref="DESIGN.md §5 C03",
@@ -118,7 +117,7 @@ CLAIMS = {
         "(REINT1); the header is shrunk before drop_range runs destructors and not written afterwards (PS1); the observers "
         "(eq/ord/hash/Debug) read the contents only through len/as_slices/iter and feed std's algorithms element by element "
         "(OBS1/ORD1/HASH1/DBG1), and the positional accessors answer from the logical position only (NONE1/DERIV1) — the "
-        "'equal contents are indistinguishable' clause. Also: a physical slot position add_mod(start,i,N) used to index/offset/swap storage needs i<size (ACC2b); index-kind inference: physical positions and logical indices/lengths are never compared nor substituted for each other, and the backing array is sliced only by physical positions (KIND1); DRNVIEW1. Not decided: bounds arithmetic inside the slice views; two-run non-interference.",
+        "'equal contents are indistinguishable' clause. Also: a physical slot position add_mod(start,i,N) used to index/offset/swap storage needs i<size (ACC2b); index-kind inference: physical positions and logical indices/lengths are never compared nor substituted for each other, and the backing array is sliced only by physical positions (KIND1); DRNVIEW1; BACKFILL2 (the back-fill of Drain::drop copies exactly the live tail [range.end, buf_size) onto the hole and restores size = range.start + moved, as linear-form equalities) and DRN1 a-c,f (the header claims nothing while a Drain, which may be leaked, exists). Not decided: bounds arithmetic inside the slice views; two-run non-interference.",
         note="One INV1 store (extend_from_slice size + other.len()) is listed as an assumption, not decided. Drain::read "
         "is a named exception (unsafe fn with a value-level contract).",
         ref="DESIGN.md §5 C04",
@@ -132,8 +131,8 @@ CLAIMS = {
         "dropped) before restoring size, restores on every normal path (modulo N==0), nothing can unwind afterwards, the "
         "back-fill loop lies on every path to the restore (DRN1 d,e, DROPPER1, BACKFILL1); next/next_back read exactly the "
         "index produced by std's Range iterator and len/size_hint are that iterator's (DRAINIT1); no modulus/index by "
-        "capacity zero reachable from drain/Drain (MOD1); every RangeBounds form translated as documented (RANGE1). Also DRNVIEW1 (views bounded by iter), VIEWCMP1 (contiguity test), KIND1 on the Drain functions, ITERSET1 for Drain. Not "
-        "decided: back-fill arithmetic, order preservation, termination (values). SUB1/RIDX1 restricted to the drain code (thorough "
+        "capacity zero reachable from drain/Drain (MOD1); every RangeBounds form translated as documented (RANGE1). Also DRNVIEW1 (views bounded by iter), VIEWCMP1 (contiguity test), KIND1 on the Drain functions, ITERSET1 for Drain. BACKFILL2: the back-fill's geometry (hole = [range.start, range.end), moved block = [range.end, buf_size), size = range.start + moved, cursors and counter stepped by the copied count) as equalities of linear forms. Not "
+        "decided: the chunk length arithmetic inside CircularSlicePtr, order preservation (values). SUB1/RIDX1 restricted to the drain code (thorough "
         "tier: also on the debug-assertion build, whose assertion arithmetic is code too).",
         note="Which slots the un-yielded views cover is decided by VIEW2 + DRNVIEW1 (pieces of the circular interval add_mod(start, iter.start, N) -> "
         "add_mod(start, iter.end, N)). Assumed (reviewed) struct invariant of Drain, an axiom of the guard reasoning: range.start <= iter.start <= iter.end <= "
@@ -239,7 +238,7 @@ CLAIMS = {
         "nothing establishes start == 0 (WHOLE1). "
         "Because every rule of this machinery is decided for a symbolic capacity and element type, the sequence-semantics rules "
         "whose verdict is thereby valid at N = usize::MAX and for zero-sized T are evaluated under this property too: RIDX1, "
-        "DRNVIEW1/DRAINIT1 (destructor runs of a drain), ORD1/HASH1/DBG1/BASE2/BASE3 (comparison results), TWIN of the range views.",
+        "PAN1-3 (the feasible explicit panic sites of every public entry are the documented ones: boundary arguments answer None / Err, they do not reach a bounds assertion), DRNVIEW1/DRAINIT1 (destructor runs of a drain), ORD1/HASH1/DBG1/BASE2/BASE3 (comparison results), TWIN of the range views.",
         note="Value-level arithmetic correctness of add_mod itself is not decided by this family.",
         ref="DESIGN.md §5 C19",
     ),
@@ -252,7 +251,7 @@ CLAIMS = {
         "(38 entries, element destructors excluded) is a loop, recursion or bulk-relocating call reachable, for every N, "
         "layout and argument; bulk relocation exists only in remove, Drain::drop, make_contiguous and From<[T;M]>, with no "
         "more bulk-move sites than the linear bound of each was reviewed for (3/1/1/1), and "
-        "make_contiguous does not rotate unconditionally. Also VIEWCMP1 (make_contiguous's contiguity test agrees with as_slices) and KIND1 on remove/swap/Drain::drop (no branch decided by comparing a physical position with a length). Not decided: the linear bounds for remove/drain and the "
+        "make_contiguous does not rotate unconditionally. Also VIEWCMP1 (make_contiguous's contiguity test agrees with as_slices) and KIND1 on remove/swap/Drain::drop (no branch decided by comparing a physical position with a length). HEADMOVE1 — a necessary condition of the linear bounds: remove / Drain::drop write `start` (which relocates every element in front of the gap) only where the guard facts entail front count <= the documented bound (index <= len - index resp. range.start <= buf_size - range.end), decided on linear forms of the dominating comparisons; on the pinned tree neither writes `start`. Not decided: the linear bounds for remove/drain beyond that (how many elements behind the gap a copy moves) and the "
         "correctness of make_contiguous's contiguity test.",
         note="KNOWN LIMIT: defect F6 (make_contiguous rotates although contents are contiguous when they end exactly at "
         "the array end; N=4,start=2,size=2) is a genuine violation of the statement's last sentence that this family "
@@ -304,7 +303,7 @@ CLAIMS = {
         "(type system gives independence of source and result); that they obtain elements only via iter().cloned() resp. "
         "feed every item to push_back, and clone_from clears first; that From<[T;M]> copies out, destroys the rest and "
         "disarms the source on every path with header start=0, size in {M,N} each <= N, and never targets an armed local. "
-        "Not decided: which array part is kept; order (inherits push_back, C01).",
+        "What the conversions are built from is decided under this property too, for symbolic N (so capacity 1 as any other): push_back stores every item it is given and returns Some only when full (C02's OWN1/STORE1/FULL1 on push_back), and pop_front/pop_back — the owning iterator — answer None only over edges establishing N == 0 or size == 0 (NONE1). Not decided: which array part is kept; order (inherits push_back, C01).",
         note="Shape rules on small forwarding functions; a behaviour-preserving rewrite would be reported.",
         ref="DESIGN.md §5 C12",
     ),
